@@ -154,6 +154,9 @@ def do_run(prop_mod, verif_seed, i, tier, only_arm=None):
     res = execute(arm, case)
     res['arm'] = arm.NAME
     res['i'] = i
+    if res.get('decisions') is not None and res['violations']:
+        case = dict(case, decisions=res.pop('decisions'))     # replay mode: the schedule becomes data
+    res.pop('decisions', None)
     if res['violations'] or res.get('harness_error') or i < 64:
         res['case'] = case
     return res
